@@ -181,6 +181,37 @@ func c07ManyModes() []*lexref.Spec {
 	return out
 }
 
+// c07NameSubsets: one specification per non-empty subset of the mode names
+// {Ma, Mb, Mc}: the default mode pushes each declared mode on its own letter,
+// each mode has a token of its own, pushes the next declared mode and pops.
+func c07NameSubsets() []*lexref.Spec {
+	all := []string{"Ma", "Mb", "Mc"}
+	var out []*lexref.Spec
+	for mask := 1; mask < 8; mask++ {
+		var names []string
+		for i, n := range all {
+			if mask&(1<<i) != 0 {
+				names = append(names, n)
+			}
+		}
+		s := &lexref.Spec{Modes: []lexref.Mode{{}}}
+		for i, n := range names {
+			s.Modes[0].Rules = append(s.Modes[0].Rules, lexref.Rule{K: lexref.RToken, Name: "P" + n, Rx: lexref.Lit(string(rune('b' + i))),
+				Actions: []lexref.Action{{K: lexref.APush, Arg: n}}})
+		}
+		s.Modes[0].Rules = append(s.Modes[0].Rules, lexref.Rule{K: lexref.RToken, Name: "EM", Rx: lexref.Lit("z")})
+		for i, n := range names {
+			m := lexref.Mode{Name: n}
+			m.Rules = append(m.Rules, lexref.Rule{K: lexref.RToken, Name: "T" + n, Rx: lexref.Lit("a")})
+			m.Rules = append(m.Rules, lexref.Rule{K: lexref.RFrag, Rx: lexref.Lit("n"), Actions: []lexref.Action{{K: lexref.APush, Arg: names[(i+1)%len(names)]}, {K: lexref.ADiscard}}})
+			m.Rules = append(m.Rules, lexref.Rule{K: lexref.RFrag, Rx: lexref.Lit("z"), Actions: []lexref.Action{{K: lexref.APop}, {K: lexref.ADiscard}}})
+			s.Modes = append(s.Modes, m)
+		}
+		out = append(out, s)
+	}
+	return out
+}
+
 // c07Padded: two rules that match the same text (a keyword that pushes a mode,
 // declared before or after an identifier rule), followed by k one-character
 // token rules and a last rule with a different mode action. The point is the
@@ -326,6 +357,24 @@ func c07Worker(c *mc.Ctx) {
 		// strings through the driver stay short here: the alphabet is large
 		for _, v := range c07One(ws, "many-modes", int64(i), s, depth, 2, &c.Stats) {
 			c.Stats.Violate(v)
+		}
+	}
+	// Mode NAMES shared between specifications generated one after the other in
+	// one process: every ordered pair of specifications whose modes are two
+	// different non-empty subsets of {Ma, Mb, Mc} (a name then stands at different
+	// places of the two sorted mode lists). The first is only generated; the second
+	// is explored. (A failure here passes when replayed alone and is replayed by
+	// re-running the shard: ground rule 3.)
+	subsets := c07NameSubsets()
+	for i := range subsets {
+		for j := range subsets {
+			if i == j || !c.Mine(int64(i*len(subsets)+j)) {
+				continue
+			}
+			lx.Build(ws, subsets[i], "")
+			for _, v := range c07One(ws, fmt.Sprintf("mode-names-after-%d", i), int64(j), subsets[j], depth, 3, &c.Stats) {
+				c.Stats.Violate(v)
+			}
 		}
 	}
 	for i, s := range c07Padded() {
